@@ -125,7 +125,12 @@ def gen_lp_cases(ctx, label, n, stab_bias=0.3, pc_bias=0.3, crit_names=None, n_c
         pc = rng.random() < pc_bias
         crits = gen_crits(rng, ast, n=n_crits, names=crit_names(rng) if crit_names else None)
         argv = argv_of(ast['na'], twopl, pc, stab, crits, rng if shuffle_flags else None)
-        yield dict(text=instgen.render(ast), na=ast['na'], twopl=twopl, pc=pc, stab=stab,
+        text = instgen.render(ast)
+        if k % 9 == 5:
+            text = text.rstrip('\n')          # the file ends right after the last agent line: no final newline, no trailer
+        elif k % 9 == 7:
+            text = instgen.render(ast, trailer=True)
+        yield dict(text=text, na=ast['na'], twopl=twopl, pc=pc, stab=stab,
                    crits=[[c, x] for c, x in crits], argv=argv, ast=ast)
 
 
